@@ -13,8 +13,8 @@ NPROC = int(os.environ.get("BBV_NPROC", "0")) or min(16, os.cpu_count() or 1)
 CASE_TIMEOUT = int(os.environ.get("BBV_CASE_TIMEOUT", "120"))
 
 
-class CaseTimeout(Exception):
-    pass
+class CaseTimeout(BaseException):
+    """raised by the alarm; a BaseException so that `except Exception` around the implementation cannot swallow it"""
 
 
 def _alarm(signum, frame):
@@ -22,11 +22,11 @@ def _alarm(signum, frame):
 
 
 def _run_chunk(payload):
-    func, chunk = payload
+    func, chunk, timeout = payload
     out = []
     signal.signal(signal.SIGALRM, _alarm)
     for item in chunk:
-        signal.alarm(CASE_TIMEOUT)
+        signal.alarm(timeout)
         try:
             out.append(("ok", func(item)))
         except CaseTimeout:
@@ -42,7 +42,7 @@ class HarnessError(Exception):
     """The harness itself failed (not a verdict about the implementation)."""
 
 
-def pmap(func, items, chunk=None, nproc=None):
+def pmap(func, items, chunk=None, nproc=None, timeout=None):
     """Apply top-level function `func` to every item; returns list of results in input order.
 
     A case that times out is re-run once alone; a second timeout is returned as the string
@@ -50,6 +50,7 @@ def pmap(func, items, chunk=None, nproc=None):
     error and aborts the run (exit status != 0/1 => the check is broken, not the code).
     """
     items = list(items)
+    timeout = timeout or CASE_TIMEOUT      # per item; tasks that enumerate a whole subtree pass a large value
     nproc = nproc or NPROC
     if not items:
         return []
@@ -57,18 +58,18 @@ def pmap(func, items, chunk=None, nproc=None):
         chunk = max(1, min(64, len(items) // (nproc * 8) or 1))
     chunks = [items[i:i + chunk] for i in range(0, len(items), chunk)]
     if nproc == 1 or len(items) < 4:
-        res = [_run_chunk((func, c)) for c in chunks]
+        res = [_run_chunk((func, c, timeout)) for c in chunks]
     else:
         ctx = multiprocessing.get_context("fork")
         with ctx.Pool(min(nproc, len(chunks))) as pool:
-            res = pool.map(_run_chunk, [(func, c) for c in chunks], chunksize=1)
+            res = pool.map(_run_chunk, [(func, c, timeout) for c in chunks], chunksize=1)
     flat = [r for c in res for r in c]
     out = []
     for item, (tag, val) in zip(items, flat):
         if tag == "ok":
             out.append(val)
         elif tag == "timeout":
-            tag2, val2 = _run_chunk((func, [item]))[0]
+            tag2, val2 = _run_chunk((func, [item], timeout))[0]
             if tag2 == "ok":
                 out.append(val2)
             elif tag2 == "timeout":
